@@ -18,6 +18,7 @@ import (
 	"github.com/alephium/wormhole-fork/node/verifh/cm"
 	"github.com/alephium/wormhole-fork/node/verifh/ev"
 	"github.com/alephium/wormhole-fork/node/verifh/vaacoop"
+	"github.com/alephium/wormhole-fork/node/verifh/vaahist"
 	"github.com/alephium/wormhole-fork/node/verifh/proch"
 	"github.com/alephium/wormhole-fork/node/verifh/mc"
 	"github.com/ethereum/go-ethereum/crypto"
@@ -296,6 +297,8 @@ func main() {
 	signedByNode()
 	// concurrent callers of the serializer / digest under every schedule with <= 2 (thorough 3) preemptions
 	r.Add("traces_validated_against_impl", vaacoop.Explore(r, r.Pick(2, 3), r.Thorough()))
+	// operation histories on one VAA object: the digest is a function of the current field values alone
+	r.Add("traces_validated_against_impl", vaahist.Explore(r, "C04", r.Pick(4, 5)))
 	r.Set("evaluations", int(evals))
 	r.Set("distinct_nontrivial", len(cases)-1)
 	r.Set("distinct_bodies", len(bodies))
